@@ -70,7 +70,7 @@ func checkC05(c ModelCase) (o Outcome) {
 	return
 }
 
-var c06Opts = GenOpts{MaxNodes: 4, MultiHalt: true, Flags: true, ReservedFl: true, EchoInput: true, NoEndNodes: true, Errors: true, RelCatch: true}
+var c06Opts = GenOpts{MaxNodes: 4, MultiHalt: true, Flags: true, ReservedFl: true, EchoInput: true, NoEndNodes: true, Errors: true, RelCatch: true, PostCroak: true}
 
 // clearTerminate is the operator step: code outside the VM clears TERMINATE.
 func clearTerminate(real *app.Session, m *model.Session) {
@@ -191,7 +191,9 @@ func checkC06(c ModelCase) (o Outcome) {
 	// blocked requests: nothing runs while TERMINATE is set (independent of the model's
 	// details: zero external calls, no bytecode fetch, position and cache unchanged,
 	// no output) — checked on the real transcript
-	if bv := blockedRequestsInert(c); bv != nil {
+	bv, tol := blockedRequestsInertT(c)
+	o.Tolerated = append(o.Tolerated, tol...)
+	if bv != nil {
 		o.Viol = bv
 		return
 	}
@@ -223,6 +225,24 @@ func checkC06(c ModelCase) (o Outcome) {
 // blockedRequestsInert serves the history once more and checks every request that
 // starts with TERMINATE set.
 func blockedRequestsInert(c ModelCase) *Violation {
+	v, _ := blockedRequestsInertT(c)
+	return v
+}
+
+func blockedRequestsInertT(c ModelCase) (*Violation, []string) {
+	tolerated := map[string]bool{}
+	tol := func() []string {
+		var out []string
+		for k := range tolerated {
+			out = append(out, k)
+		}
+		return out
+	}
+	v := blockedRequestsInertBody(c, tolerated)
+	return v, tol()
+}
+
+func blockedRequestsInertBody(c ModelCase, tolerated map[string]bool) *Violation {
 	var storage app.Storage
 	cleanup := func() {}
 	if c.Mode.Kind != "long" {
@@ -237,6 +257,7 @@ func blockedRequestsInert(c ModelCase) *Violation {
 	}
 	real := app.NewSession(app.NewShared(theApp), c.Mode, storage)
 	var prev *app.Snapshot
+	scopesOff := false
 	for i, in := range c.Inputs {
 		if !inputAccepted(string(in)) {
 			continue
@@ -275,10 +296,24 @@ func blockedRequestsInert(c ModelCase) *Violation {
 		}
 		// a session that ended gracefully starts again with an empty symbol cache: what is
 		// stored after its last request holds no symbol
-		if c.Mode.Kind == "persist" && !blocked && !st.Cont && st.ExecErr == "" && st.After != nil && !terminateOf(st.After.Flags) {
+		if st.After != nil && len(st.After.Path) > 0 && len(st.After.Frames) != len(st.After.Path)+1 {
+			// a firing CROAK purged the cache but left the navigation stack (F-C08-2)
+			scopesOff = true
+		}
+		// (when the final page failed to render the engine has not unwound the session yet;
+		// the next request's start does it)
+		if c.Mode.Kind == "persist" && !blocked && !st.Cont && st.ExecErr == "" && st.FlushErr == "" && st.After != nil && !terminateOf(st.After.Flags) {
 			for li, fr := range st.After.Frames {
 				for k, v := range fr {
-					return viol("ended-session-keeps-symbols", "request %d (%q) ended the session gracefully, but the stored cache still holds %s=%q in scope %d (used size %d): the next session would find it loaded", i, in, k, v, li, st.After.Used)
+					if scopesOff && tolerate("F-C20-4") {
+						tolerated["F-C20-4"] = true
+						continue
+					}
+					bv := viol("ended-session-keeps-symbols", "request %d (%q) ended the session gracefully, but the stored cache still holds %s=%q in scope %d (used size %d): the next session would find it loaded", i, in, k, v, li, st.After.Used)
+					if scopesOff {
+						bv.Detail = "after-scopes-off"
+					}
+					return bv
 				}
 			}
 		}
